@@ -283,6 +283,14 @@ fn run(ctx: &Ctx) -> Run {
                 run.count("deep.random_tuples");
             }
         }
+        // (2b) tuples in a random order that mixes faces and resolutions from one call to the next (an encoder must not care
+        // what it encoded before)
+        for _ in 0..ctx.n(400_000, 8_000_000) / threads as u64 {
+            let res = rng.below(31) as i32 - 1;
+            let c = gen::random_cell(&mut rng, res);
+            check_tuple(run, c);
+            run.count("shuffled.random_tuples");
+        }
         // (3) hex codec
         if w == 0 {
             for k in 0..64 {
